@@ -53,6 +53,7 @@ func checkC18(c *Check, a *Anchors) {
 	c08CopyExhaustive(c, a) // a "copy" that keeps a mutable reference of the definition is state shared by every concurrent run of the task
 	sharedWait(c, a)        // the recorded outcome is written before the completion signal (happens-before for the waiters' read)
 	copyReturnsFresh(c, a, "copy-returns-fresh")
+	c18CachePerGoroutine(c, a)
 }
 
 func c18FieldsClassified(c *Check, a *Anchors) {
@@ -335,4 +336,62 @@ func confinedTo(info *types.Info, root *FuncBody, v *types.Var, lit *ast.FuncLit
 		return true
 	})
 	return ok
+}
+
+// c18CachePerGoroutine: a templater.Cache is a single-goroutine object (lazily built map, sticky error written on every use).
+func c18CachePerGoroutine(c *Check, a *Anchors) {
+	c.Rule("templater-cache-per-goroutine", "no function literal that is started as a goroutine (go statement, errgroup.Go) uses a templater.Cache variable of the enclosing function: the cache builds its map lazily and writes its error field on every Replace without a lock, so a cache hoisted out of the loop that spawns the goroutines is written by all of them (and one goroutine's template error leaks into its siblings' results)")
+	n := 0
+	ord := map[string]int{}
+	for _, lit := range c.P.Bodies() {
+		if lit.Lit == nil || !strings.HasPrefix(lit.Pkg.PkgPath, Mod) || bceSkipPkgs[lit.Pkg.PkgPath] {
+			continue
+		}
+		root := lit.Root()
+		rinfo := root.Info()
+		spawned := false
+		inspectDeep(root.Body, func(nd ast.Node) bool {
+			switch x := nd.(type) {
+			case *ast.GoStmt:
+				if fl, ok := ast.Unparen(x.Call.Fun).(*ast.FuncLit); ok && fl == lit.Lit {
+					spawned = true
+				}
+			case *ast.CallExpr:
+				if isFunc(callee(rinfo, x), "golang.org/x/sync/errgroup", "Group", "Go") && len(x.Args) == 1 {
+					if fl, ok := ast.Unparen(x.Args[0]).(*ast.FuncLit); ok && fl == lit.Lit {
+						spawned = true
+					}
+				}
+			}
+			return true
+		})
+		if !spawned {
+			continue
+		}
+		n++
+		info := lit.Info()
+		seen := map[*types.Var]bool{}
+		inspectDeep(lit.Body, func(nd ast.Node) bool {
+			id, ok := nd.(*ast.Ident)
+			if !ok {
+				return true
+			}
+			v, ok := info.Uses[id].(*types.Var)
+			if !ok || v.IsField() || seen[v] || !isNamed(v.Type(), PkgTemplater, "Cache") {
+				return true
+			}
+			if v.Pos() >= lit.Body.Pos() && v.Pos() <= lit.Body.End() {
+				return true // the goroutine's own cache
+			}
+			seen[v] = true
+			c.Fn(root)
+			c.Bad("templater-cache-per-goroutine", ordinal(ord, "captured "+v.Name()+"@"+fnDisplay(root)), id.Pos(), "the goroutine started in "+fnDisplay(root)+" uses the templater.Cache `"+v.Name()+"` of the enclosing function: every goroutine of the loop writes the same cache (data race on its map and error; a template error of one leaks into the others)")
+			return true
+		})
+	}
+	if n == 0 {
+		c.Errorf("templater-cache-per-goroutine: no spawned function literal found")
+		return
+	}
+	c.OK("templater-cache-per-goroutine", "spawned-literals", 0, fmt.Sprintf("%d spawned function literal(s) inspected", n))
 }
